@@ -918,15 +918,22 @@ class Gen:
                 if ty == "@":
                     a = rng.choice(al)
                     r = self.ref_to(me, a)
-                    pre = rng.choice([[], [], ["input"], ["output"], ["parameter"]])
-                    c["comps"].append(dict(name=cn, type=r, prefixes=pre, dims=[], mods=[], value=None, _alias=a))
+                    abase = self.oracle().base_of_alias(a)[0]
+                    pre = rng.choice([[], [], ["input"], ["output"], ["parameter"], ["constant"], ["discrete"]])
+                    if abase == "Boolean" and pre in (["input"], ["output"]):
+                        pre = []
+                    adims = []
+                    if rng.random() < 0.35:      # an array of scalars declared with a type definition
+                        adims = [rng.choice([2, 3])] if rng.random() < 0.8 else [2, 2]
+                    c["comps"].append(dict(name=cn, type=r, prefixes=pre, dims=adims, mods=[], value=None, _alias=a,
+                                           _abase=abase))
                     continue
                 pre = rng.choice([[], [], [], ["parameter"], ["parameter"], ["constant"], ["input"], ["output"],
                                   ["discrete"], ["flow"], ["parameter", "input"]])
                 if ty in ("Boolean", "String") and pre in (["flow"], ["parameter", "input"], ["input"], ["output"]):
                     pre = []
                 dims = []
-                if ty == "Real" and rng.random() < 0.3:
+                if (ty == "Real" and rng.random() < 0.3) or (ty in ("Integer", "Boolean") and rng.random() < 0.15):
                     dims = [rng.choice([2, 3])] if rng.random() < 0.8 else [2, 2]
                 c["comps"].append(dict(name=cn, type=ty, prefixes=pre, dims=dims, mods=[], value=None))
         # integer parameters for computed subscripts
@@ -950,7 +957,7 @@ class Gen:
                 self.sites.append((k, sem))
             else:
                 sem = []
-                num = k["type"] in ("Real", "Integer") or "_alias" in k
+                num = k["type"] in ("Real", "Integer") or k.get("_abase") in ("Real", "Integer")
                 if not k["dims"]:
                     if num:
                         others = [r for r in scal if r != [[k["name"], []]]]
@@ -1071,10 +1078,12 @@ class Gen:
             if base is None:
                 base = "Real"
         else:
-            base = rng.choice(["Real", "Real", "Integer"])
+            base = rng.choice(["Real", "Real", "Real", "Integer", "Integer", "Boolean"])
+        numeric = base != "Boolean" and (base in ("Real", "Integer") or
+                                          self.oracle().base_of_alias(base_p)[0] != "Boolean")
         mods = [dict(name=[a], subs=[], value=(["num", rng.randint(1, 9)] if rng.random() < 0.8 else ["un", "-", ["num", rng.randint(1, 9)]]))
-                for a in rng.sample(NUM_ATTRS, rng.choice([0, 1, 1, 2]))]
-        if rng.random() < 0.2:
+                for a in rng.sample(NUM_ATTRS, rng.choice([0, 1, 1, 2]))] if numeric else []
+        if numeric and rng.random() < 0.2:
             mods.append(dict(name=["unit"], subs=[], value=["str", "V"]))
         c = dict(name=name, kind="type", alias=dict(base=base, mods=mods), extends=[], classes=[], comps=[], eqs=[], ieqs=[])
         container.append(c)
